@@ -105,6 +105,10 @@ pub fn collision_cases(out: &mut Vec<Case>) {
     p("recursive-through-list", "T ::= SEQUENCE { children SEQUENCE OF T }");
     p("recursive-through-optional", "T ::= SEQUENCE { next T OPTIONAL }");
     p("recursive-through-choice", "T ::= CHOICE { leaf NULL, node SEQUENCE OF T }");
+    // a component list that is only an extension marker
+    p("empty-extensible-sequence", "T ::= SEQUENCE { ... }");
+    p("empty-extensible-sequence-inline", "T ::= SEQUENCE { a SEQUENCE { ... } }");
+    p("empty-sequence", "T ::= SEQUENCE { }\nU ::= SEQUENCE { e T }");
     // separators and digits
     p("names/digits", "T1 ::= SEQUENCE { a1 BOOLEAN, a2b BOOLEAN, a-2 BOOLEAN }\nT ::= SEQUENCE { x T1 }");
     p("names/long-hyphenated", "T ::= SEQUENCE { this-is-a-very-long-hyphenated-component-name BOOLEAN, thisIsCamelCase BOOLEAN, mixed-camelCase-name BOOLEAN }");
